@@ -142,6 +142,17 @@ def find_undo_commit(F):
     return None
 
 
+def _all(v):
+    """every sub-term of a symbolic value"""
+    out = []
+    if isinstance(v, tuple):
+        out.append(v)
+        for x in v:
+            if isinstance(x, tuple):
+                out += _all(x)
+    return out
+
+
 def rule_U2(F, R):
     R.begin("U2", "commit_reversed_operations: early returns (empty input, tail mismatch) write nothing; the mismatch test compares the supplied operations with the suffix of the same length of unsynced_operations(); the loop runs over the supplied operations reversed, applies every reversed operation and removes the undone operation each iteration")
     b = find_undo_commit(F)
@@ -202,6 +213,62 @@ def rule_U2(F, R):
                             other_is_undo = _has(s2, lambda z: z == undo_param)
                             if good and other_is_undo:
                                 found_eq = True
+    def _helper_tail_match(a, o):
+        """the test is delegated to a crate-local predicate fn(undo, unsynced) -> bool whose own table says
+        `unsynced[len(unsynced) - len(undo)..] == undo` (subtraction plain or checked)"""
+        if a[0] == "call#":
+            a = ("call", a[2], a[3])
+        if not (a[0] == "call" and o is True and isinstance(a[1], str)):
+            return False
+        hb = F.bodies.get(a[1]) or F.bodies.get(re.sub(r"::<[^>]*>", "", a[1]))
+        if hb is None or hb["kind"] not in ("Fn", "AssocFn") or not hb.get("blocks"):
+            return False
+        try:
+            hpaths = [q for q in SymExec(hb, cfg_of(hb), max_paths=500).run() if q.end[0] == "return"]
+        except Exception:
+            return False
+        pnames = [hb["locals"][i + 1].get("name") for i in range(hb["argc"])]
+        pair = None
+        for q in hpaths:
+            cands = [(aa, True) for (aa, oo, _b2) in q.atoms if aa[0] == "call" and aa[1].endswith("PartialEq::eq") and oo is True]
+            if q.ret and q.ret[0] == "C" and isinstance(q.ret[2], str) and q.ret[2].endswith("PartialEq::eq"):
+                cands.append((("call", q.ret[2], q.ret[3]), True))
+            for (aa, _t) in cands:
+                x, y = aa[2][0], aa[2][1]
+                for s1, s2 in ((x, y), (y, x)):
+                    idx = [v for v in _all(s1) if v[0] == "C" and isinstance(v[2], str) and v[2].endswith("Index::index")]
+                    for iv in idx:
+                        base, rng = iv[3][0], iv[3][1]
+                        if not (rng[0] == "A" and rng[1].endswith("RangeFrom")):
+                            continue
+                        start = dict(rng[3]).get("start")
+                        for A in pnames:
+                            for B in pnames:
+                                if A == B or not A or not B:
+                                    continue
+                                lenA = lambda w: w[0] == "C" and w[2].endswith("::len") and _has(w, lambda z: z == ("P", A))
+                                lenB = lambda w: w[0] == "C" and w[2].endswith("::len") and _has(w, lambda z: z == ("P", B))
+                                sub_ok = _has(start, lambda v: (v[0] == "B" and v[1] in ("SubWithOverflow", "Sub") and _has(v[2], lenA) and _has(v[3], lenB))
+                                              or (v[0] == "C" and v[2].endswith("::checked_sub") and len(v[3]) == 2 and _has(v[3][0], lenA) and _has(v[3][1], lenB)))
+                                if sub_ok and _has(base, lambda z: z == ("P", A)) and _has(s2, lambda z: z == ("P", B)):
+                                    pair = (A, B)
+        if pair is None:
+            return False
+        # no path may answer `true` without that comparison
+        for q in hpaths:
+            r_ = q.ret
+            if r_ and r_[0] == "K" and str(r_[1]).replace("const ", "") == "true":
+                if not any(aa[0] == "call" and aa[1].endswith("PartialEq::eq") and oo is True for (aa, oo, _b2) in q.atoms):
+                    return False
+        ia, ib = pnames.index(pair[0]), pnames.index(pair[1])
+        args = a[2]
+        return _has(args[ia], lambda v: v[0] == "C" and v[2].endswith("unsynced_operations")) and _has(args[ib], lambda z: z == undo_param)
+
+    for p in paths:
+        for (a, o, _bb) in p.atoms:
+            if _helper_tail_match(a, o):
+                found_eq = True
+
     def _is_ends_with(a, o):
         return (a[0] == "call" and a[1].endswith("::ends_with") and o is True
                 and _has(a[2][0], lambda v: v[0] == "C" and v[2].endswith("unsynced_operations"))
@@ -220,7 +287,8 @@ def rule_U2(F, R):
         if not evw:
             continue
         okp = any(a[0] == "call" and a[1].endswith("PartialEq::eq") and o is True and _has(a[2], lambda v: v[0] == "C" and v[2].endswith("Index::index")) for (a, o, _bb) in p.atoms) \
-            or any(a[0] == "call" and a[1].endswith("::ends_with") and o is True for (a, o, _bb) in p.atoms)
+            or any(a[0] == "call" and a[1].endswith("::ends_with") and o is True for (a, o, _bb) in p.atoms) \
+            or any(_helper_tail_match(a, o) for (a, o, _bb) in p.atoms)
         if not okp:
             R.violation("U2", subj, "reversal-without-match", "%s is reachable without the tail-match test having succeeded" % evw[0]["callee"].split("::")[-1], where(b, evw[0]["bb"]))
             break
@@ -346,13 +414,24 @@ def rule_U3(F, R):
 # ---------------------------------------------------------------------------------------
 # R1-R4: working set
 
-def find_rebuild(F):
+def find_rebuild(F, role="scan"):
+    """the working-set rebuild in taskdb::working_set, by what each part does (the rebuild may be one function or be
+    split into phases): role `scan` = the body that reads all_tasks and walks the old working set, `write` = the body
+    that calls set_working_set_item, `entry` = the body that commits (what TaskDb::rebuild_working_set calls)"""
+    cands = []
     for p, b in F.bodies.items():
         if p.startswith("taskdb::working_set::") and b.get("coroutine"):
-            c = cfg_of(b)
-            if calls_matching(c, re.escape(TXN) + "::get_working_set$") and calls_matching(c, re.escape(TXN) + "::all_tasks$"):
-                return b
-    return None
+            cands.append(b)
+    def has(b, m):
+        return bool(calls_matching(cfg_of(b), re.escape(TXN) + "::" + m + "$"))
+    whole = [b for b in cands if has(b, "get_working_set") and has(b, "all_tasks")]
+    if whole:
+        return whole[0]
+    want = {"scan": "all_tasks", "write": "set_working_set_item", "entry": "commit"}[role]
+    sel = [b for b in cands if has(b, want)]
+    if role == "entry" and not sel:
+        sel = [b for b in cands if has(b, "get_working_set")]
+    return sel[0] if len(sel) == 1 else None
 
 
 def rule_R1(F, R):
@@ -653,7 +732,7 @@ def _check_status_membership(F, R, cl, want, what, subject_of):
 
 def rule_R5(F, R):
     R.begin("R5", "a rebuild never reports success without writing back and committing what it computed (no successful exit bypasses the commit, unless old and new working set were found equal)")
-    b = find_rebuild(F)
+    b = find_rebuild(F, "entry")
     if b is None:
         R.missing("R5", "the rebuild function")
         return
@@ -1053,7 +1132,7 @@ def rule_A1(F, R):
 def rule_R6(F, R):
     R.begin("R6", "Replica::sync: once the TaskDb sync has succeeded, every successful return has rebuilt the working set (unconditionally: a sync that exchanged nothing may be the repeat of one that was interrupted after its transaction committed and before the rebuild)")
     from tc.util import error_blocks
-    rb = find_rebuild(F)
+    rb = find_rebuild(F, "entry")
     if rb is None:
         R.missing("R6", "the working-set rebuild function")
         return
@@ -1178,7 +1257,7 @@ def rule_R7(F, R):
 
 def rule_R8(F, R):
     R.begin("R8", "rebuild write-back order: the writes that blank the tail (set_working_set_item(i, None) for the indices beyond the new length) come last. The storage contract lets set_working_set_item address only existing indices, and the in-memory storage drops trailing blanks after every write: an in-range write issued after the tail was blanked can find its index gone, and the rebuild fails with the gaps left in place")
-    b = find_rebuild(F)
+    b = find_rebuild(F, "write")
     if b is None:
         R.missing("R8", "the rebuild function")
         return
@@ -1251,9 +1330,10 @@ def rule_ERR(F, R):
     asf = roles.apply_snapshot_fn(F)
     if asf:
         targets.append(asf)
-    rb = find_rebuild(F)
-    if rb is not None:
-        targets.append(rb["path"])
+    for role_ in ("scan", "write", "entry"):
+        rb = find_rebuild(F, role_)
+        if rb is not None and rb["path"] not in targets:
+            targets.append(rb["path"])
     for p, b in F.bodies.items():
         if b["kind"] in ("Fn", "AssocFn") and p.startswith("taskdb::") and F.owner(p) == p:
             rbody = F.real_body(p)
